@@ -32,6 +32,22 @@ def local_dict_literals(fi, pred=None):
     return out
 
 
+def dict_tables_of(fi, pred):
+    """dict literals bound to a local name in fi, and module-level dict constants that fi refers to by name"""
+    out = local_dict_literals(fi, pred)
+    used = {n.id for n in ast.walk(fi.node) if isinstance(n, ast.Name) and isinstance(n.ctx, ast.Load)}
+    local_names = {x[0] for x in out}
+    for name, val in fi.module.constants.items():
+        if name in used and name not in local_names and isinstance(val, ast.Dict):
+            try:
+                d = fold_const(val, fi.module)
+            except ValueError:
+                continue
+            if pred(d):
+                out.append((name, d, val))
+    return out
+
+
 def _is_symbol_table(d):
     return len(d) >= 3 and all(isinstance(k, str) and len(k) == 1 for k in d) and \
         all(isinstance(v, (int, float)) and not isinstance(v, bool) for v in d.values())
@@ -39,7 +55,7 @@ def _is_symbol_table(d):
 
 def reader_symbol_table(repo):
     fi = repo.function("read_cgsmiles:read_cgsmiles")
-    tabs = local_dict_literals(fi, _is_symbol_table)
+    tabs = dict_tables_of(fi, _is_symbol_table)
     if len(tabs) != 1:
         raise AnalysisError("expected exactly one bond-order symbol table in read_cgsmiles, found %d" % len(tabs), fi.where())
     return fi, tabs[0]
@@ -47,7 +63,7 @@ def reader_symbol_table(repo):
 
 def fragment_symbol_table(repo):
     fi = repo.function("read_fragments:strip_bonding_descriptors")
-    tabs = local_dict_literals(fi, _is_symbol_table)
+    tabs = dict_tables_of(fi, _is_symbol_table)
     if len(tabs) != 1:
         raise AnalysisError("expected exactly one bond-order symbol table in strip_bonding_descriptors, found %d" % len(tabs), fi.where())
     return fi, tabs[0]
